@@ -251,12 +251,17 @@ type world struct {
 	formatters []formattedstore.Formatter // one per fmt layer, kept across rewrap (a formatter may hold key material / maps)
 	layers     []spi.Provider             // the wrapper providers, innermost first
 	dir        string
+	noOpen     bool
 }
 
 const storeName = "s"
 
-func newWorld(st Stack) (*world, error) {
-	w := &world{stack: st}
+func newWorld(st Stack) (*world, error) { return newWorldOpt(st, true) }
+
+func newWorldNoOpen(st Stack) (*world, error) { return newWorldOpt(st, false) }
+
+func newWorldOpt(st Stack, open bool) (*world, error) {
+	w := &world{stack: st, noOpen: !open}
 
 	switch st.Base {
 	case "mem":
@@ -328,6 +333,10 @@ func (w *world) wrap() error {
 	}
 
 	w.top = p
+
+	if w.noOpen {
+		return nil
+	}
 
 	s, err := p.OpenStore(storeName)
 	if err != nil {
@@ -946,7 +955,7 @@ func runCase(kind string, c Case, tr *hx.Trace, withCoq bool) {
 	}
 
 	if withCoq && c.Stack.modelled() {
-		rec.Coq = fmt.Sprintf("{| c_stack := %s; c_steps := [%s]; c_conj := %s; c_oracle := %s |}",
+		rec.Coq = fmt.Sprintf("{| c_stack := %s; c_steps := [%s]; c_psteps := []; c_conj := %s; c_oracle := %s |}",
 			c.Stack.coq(), strings.Join(steps, "; "), hx.CoqBool(c.Stack.supportsConj()), hx.CoqBool(oracleOK))
 	}
 
@@ -1164,6 +1173,12 @@ func corpus(dir string, tr *hx.Trace) {
 			continue
 		}
 
+		var pc PCase
+		if json.Unmarshal(b, &pc) == nil && len(pc.POps) > 0 {
+			runPCase("corpus:"+filepath.Base(f), pc, tr)
+			continue
+		}
+
 		var c Case
 		if json.Unmarshal(b, &c) != nil || len(c.Ops) == 0 {
 			fmt.Fprintln(os.Stderr, "bad corpus file", f)
@@ -1227,6 +1242,23 @@ func main() {
 			Ops   []Op  `json:"ops"`
 		}
 
+		var pr struct {
+			Case *PCase `json:"case"`
+			PCase
+		}
+
+		if json.Unmarshal(b, &pr) == nil {
+			if pr.Case != nil && len(pr.Case.POps) > 0 {
+				runPCase("replay", *pr.Case, tr)
+				return
+			}
+
+			if len(pr.POps) > 0 {
+				runPCase("replay", pr.PCase, tr)
+				return
+			}
+		}
+
 		_ = json.Unmarshal(b, &c)
 		if c.Case == nil {
 			c.Case = &Case{Stack: c.Stack, Ops: c.Ops}
@@ -1258,10 +1290,10 @@ func main() {
 	// random sequences over every stack up to depth 3 (mem) / a selection (leveldb)
 	memStacks := stacks([]string{"mem"}, 3, []string{"noop", "b64det", "b64rand"})
 	ldbStacks := stacks([]string{"leveldb"}, 2, []string{"b64det", "b64rand"})
-	perMem, perLdb, coqEvery, perEdv := 8, 4, 3, 12
+	perMem, perLdb, coqEvery, perEdv, perProv := 8, 4, 3, 12, 6
 
 	if thorough {
-		perMem, perLdb, coqEvery, perEdv = 60, 20, 6, 100
+		perMem, perLdb, coqEvery, perEdv, perProv = 60, 20, 6, 100, 60
 	}
 
 	n := 0
@@ -1289,6 +1321,15 @@ func main() {
 		for j := 0; j < perEdv; j++ {
 			r := rng.Fork(uint64(9_000_000 + i*1000 + j))
 			runCase("random-edv", randomCase(r, st, 4+r.Intn(12)), tr, true)
+		}
+	}
+
+	// provider-level scenarios (OpenStore / SetStoreConfig / GetStoreConfig / GetOpenStores / Close): direct oracle
+	pStacks := append(stacks([]string{"mem"}, 2, []string{"noop", "b64det", "b64rand"}), stacks([]string{"leveldb"}, 1, []string{"b64det", "b64rand"})...)
+	for i, st := range pStacks {
+		for j := 0; j < perProv; j++ {
+			r := rng.Fork(uint64(7_000_000 + i*1000 + j))
+			runPCase("provider", randPCase(r, st, 4+r.Intn(14)), tr)
 		}
 	}
 
